@@ -20,6 +20,7 @@ type c45replay struct {
 	Raw  []byte   `json:"raw,omitempty"`
 	Len  int      `json:"len,omitempty"`
 	Idx  int      `json:"idx,omitempty"`
+	Idx2 int      `json:"idx2,omitempty"`
 }
 
 func c45class32(b uint32) string {
@@ -206,6 +207,87 @@ func c45jsonValues() []struct {
 	}
 }
 
+// c45json2: second use. The result of an earlier JSON call is still held while a later call runs (two JSON.SET commands
+// built for one batch): both must equal the standard encodings afterwards.
+func c45json2(i, j int) (sig, detail string) {
+	vals := c45jsonValues()
+	ri, erri := json.Marshal(vals[i].v)
+	rj, errj := json.Marshal(vals[j].v)
+	if erri != nil || errj != nil {
+		return "", ""
+	}
+	var s1, s2, s3 string
+	p, _ := vrun.Catch(func() {
+		s1 = JSON(vals[i].v)
+		s2 = JSON(vals[j].v)
+		s3 = JSON(vals[i].v)
+	})
+	if p != nil {
+		return "JSON: panics on a value encoding/json can encode", fmt.Sprintf("values #%d, #%d: panic %v", i, j, p)
+	}
+	if s1 != string(ri) || s2 != string(rj) || s3 != string(ri) {
+		return "JSON: an earlier result differs from encoding/json after a later call", fmt.Sprintf("s1=JSON(#%d) s2=JSON(#%d) s3=JSON(#%d): afterwards s1=%q s2=%q s3=%q, json.Marshal gives %q and %q", i, j, i, s1, s2, s3, ri, rj)
+	}
+	return "", ""
+}
+
+// c45vec2: the strings of two vector conversions are held at the same time (a batch of two vector commands)
+func c45vec2(b32 []uint32, b64 []uint64) (sig, detail string) {
+	mk32 := func(b []uint32) []float32 {
+		v := make([]float32, len(b))
+		for i := range b {
+			v[i] = math.Float32frombits(b[i])
+		}
+		return v
+	}
+	mk64 := func(b []uint64) []float64 {
+		v := make([]float64, len(b))
+		for i := range b {
+			v[i] = math.Float64frombits(b[i])
+		}
+		return v
+	}
+	if len(b32) >= 2 {
+		h := len(b32) / 2
+		s1 := VectorString32(mk32(b32[:h]))
+		s2 := VectorString32(mk32(b32[h:]))
+		back1, back2 := ToVector32(s1), ToVector32(s2)
+		for i := range back1 {
+			if i >= h || math.Float32bits(back1[i]) != b32[i] {
+				return "VectorString32: an earlier result changes after a later call", fmt.Sprintf("bits %08x split at %d: first decodes to %v", b32, h, back1)
+			}
+		}
+		if len(back1) != h || len(back2) != len(b32)-h {
+			return "VectorString32: an earlier result changes after a later call", fmt.Sprintf("bits %08x split at %d: lengths %d, %d", b32, h, len(back1), len(back2))
+		}
+		for i := range back2 {
+			if math.Float32bits(back2[i]) != b32[h+i] {
+				return "VectorString32: an earlier result changes after a later call", fmt.Sprintf("bits %08x split at %d: second decodes to %v", b32, h, back2)
+			}
+		}
+	}
+	if len(b64) >= 2 {
+		h := len(b64) / 2
+		s1 := VectorString64(mk64(b64[:h]))
+		s2 := VectorString64(mk64(b64[h:]))
+		back1, back2 := ToVector64(s1), ToVector64(s2)
+		if len(back1) != h || len(back2) != len(b64)-h {
+			return "VectorString64: an earlier result changes after a later call", fmt.Sprintf("bits %016x split at %d: lengths %d, %d", b64, h, len(back1), len(back2))
+		}
+		for i := range back1 {
+			if math.Float64bits(back1[i]) != b64[i] {
+				return "VectorString64: an earlier result changes after a later call", fmt.Sprintf("bits %016x split at %d: first decodes to %v", b64, h, back1)
+			}
+		}
+		for i := range back2 {
+			if math.Float64bits(back2[i]) != b64[h+i] {
+				return "VectorString64: an earlier result changes after a later call", fmt.Sprintf("bits %016x split at %d: second decodes to %v", b64, h, back2)
+			}
+		}
+	}
+	return "", ""
+}
+
 func c45json(i int) (sig, detail, outcome string) {
 	vals := c45jsonValues()
 	e := vals[i]
@@ -232,7 +314,7 @@ func c45json(i int) (sig, detail, outcome string) {
 
 func TestVerif_C45(t *testing.T) {
 	vrun.Main(t, "C45", func(r *vrun.Run) {
-		r.Rule = "float32: quick = all 2^16 high halves x 8 low halves, thorough = ALL 2^32 bit patterns, each as a 1-element vector; float64: all 2048 exponents x sign x mantissa set (8 quick / 112 thorough) as 1-element vectors; vectors of length 0..3 (thorough 0..4) over an 8-value special alphabet (qNaN/sNaN with payload, +-0, +-Inf, denormal, 1.0) for both widths, plus nil; BinaryString on all byte strings of length <=2 (thorough <=3) plus nil; ToVector32/64 on every length 0..9 / 0..17; JSON on an enumerated value table vs encoding/json and hand-written texts. Comparison by math.Float32bits/Float64bits and byte layout. non-trivial = NaN / Inf / zero / denormal patterns, multi-element vectors, malformed lengths"
+		r.Rule = "float32: quick = all 2^16 high halves x 8 low halves, thorough = ALL 2^32 bit patterns, each as a 1-element vector; float64: all 2048 exponents x sign x mantissa set (8 quick / 112 thorough) as 1-element vectors; vectors of length 0..3 (thorough 0..4) over an 8-value special alphabet (qNaN/sNaN with payload, +-0, +-Inf, denormal, 1.0) for both widths, plus nil; BinaryString on all byte strings of length <=2 (thorough <=3) plus nil; ToVector32/64 on every length 0..9 / 0..17; JSON on an enumerated value table vs encoding/json and hand-written texts; second use: every ordered pair of table values encoded one after the other with both results held (and two vector strings held at once), compared afterwards. Comparison by math.Float32bits/Float64bits and byte layout. non-trivial = NaN / Inf / zero / denormal patterns, multi-element vectors, malformed lengths"
 		if raw, ok := r.ReplayPayload(); ok {
 			var p c45replay
 			if err := json.Unmarshal(raw, &p); err != nil {
@@ -253,6 +335,10 @@ func TestVerif_C45(t *testing.T) {
 				sig, detail = c45malformed(true, p.Len)
 			case "json":
 				sig, detail, _ = c45json(p.Idx)
+			case "json2":
+				sig, detail = c45json2(p.Idx, p.Idx2)
+			case "vec2":
+				sig, detail = c45vec2(p.B32, p.B64)
 			}
 			if sig != "" {
 				r.Violate(sig, detail, p)
@@ -485,6 +571,38 @@ func TestVerif_C45(t *testing.T) {
 					r.Violate(sig, detail, c45replay{Kind: "json", Idx: i})
 				}
 			}
+		}
+		// ---- 7. second use: two results held at the same time
+		if r.Mine(3) {
+			n := len(c45jsonValues())
+			for i := 0; i < n; i++ {
+				for j := 0; j < n; j++ {
+					r.Evaluations++
+					r.StateStr("json2", fmt.Sprint(i, ",", j))
+					if sig, detail := c45json2(i, j); sig != "" {
+						r.Outcome("JSON second use diff")
+						r.Violate(sig, detail, c45replay{Kind: "json2", Idx: i, Idx2: j})
+					} else {
+						r.Outcome("JSON second use equal")
+					}
+				}
+			}
+			sp32 := []uint32{0x7fc00001, 0x7fa00001, 0, 0x80000000, 0x7f800000, 0xff800000, 1, 0x3f800000}
+			sp64 := []uint64{0x7ff8000000000001, 0x7ff4000000000001, 0, 0x8000000000000000, 0x7ff0000000000000, 0xfff0000000000000, 1, 0x3ff0000000000000}
+			for a := range sp32 {
+				for b := range sp32 {
+					for c := range sp32 {
+						r.Evaluations++
+						r.StateStr("vec2", fmt.Sprint(a, b, c))
+						b32 := []uint32{sp32[a], sp32[b], sp32[c]}
+						b64 := []uint64{sp64[a], sp64[b], sp64[c]}
+						if sig, detail := c45vec2(b32, b64); sig != "" {
+							r.Violate(sig, detail, c45replay{Kind: "vec2", B32: b32, B64: b64})
+						}
+					}
+				}
+			}
+			r.Outcome("vector second use checked")
 		}
 		r.Sample(map[string]any{"float32_bits": "7fa00001 (signalling NaN with payload)", "string": fmt.Sprintf("% x", VectorString32([]float32{math.Float32frombits(0x7fa00001)})), "back": fmt.Sprintf("%08x", math.Float32bits(ToVector32(VectorString32([]float32{math.Float32frombits(0x7fa00001)}))[0]))})
 		r.Assume("amd64: float values are moved through SSE registers / memory, which does not quieten signalling NaNs; on x87 targets the harness itself could not hold an sNaN")
